@@ -112,6 +112,9 @@ pub struct Fmt {
     pub span_wrap: bool,
     /// span wrapping may start / end on collapsible white space (<span> b </span>)
     pub span_edges: bool,
+    /// write nothing between the tags of an empty block container (the random choices
+    /// are still drawn, so that the rest of the document comes out the same)
+    pub no_gap_in_empty: bool,
     /// omit optional end tags, vary attribute quoting
     pub tag_style: bool,
 }
@@ -125,6 +128,7 @@ impl Fmt {
             comments: false,
             span_wrap: false,
             span_edges: false,
+            no_gap_in_empty: false,
             tag_style: false,
         }
     }
@@ -136,6 +140,7 @@ impl Fmt {
             comments: true,
             span_wrap: true,
             span_edges: false,
+            no_gap_in_empty: false,
             tag_style: true,
         }
     }
@@ -149,6 +154,7 @@ impl Fmt {
             comments: false,
             span_wrap: false,
             span_edges: false,
+            no_gap_in_empty: false,
             tag_style: true,
         }
     }
@@ -261,6 +267,16 @@ fn emit_gap(fmt: &mut Fmt, out: &mut String, depth: usize) {
     }
 }
 
+/// Does the subtree hold anything that renders (a word, non-blank raw text, an image)?
+fn has_renderable(nodes: &[Node]) -> bool {
+    nodes.iter().any(|n| match n {
+        Node::Word(_) => true,
+        Node::Raw(t) => !t.trim().is_empty(),
+        Node::El(e) => e.tag == "img" || e.tag == "br" || has_renderable(&e.children),
+        _ => false,
+    })
+}
+
 fn ser_children(
     nodes: &[Node],
     blockish_container: bool,
@@ -273,6 +289,18 @@ fn ser_children(
     // edges of a container whose children are all block-level)
     let all_block = !nodes.is_empty() && nodes.iter().all(is_block_node);
     let gaps_ok = blockish_container && !in_pre;
+    if nodes.is_empty() && gaps_ok {
+        // between the start and the end tag of an empty block container
+        if fmt.no_gap_in_empty {
+            let mut scratch = String::new();
+            emit_gap(fmt, &mut scratch, depth.saturating_sub(1));
+        } else {
+            emit_gap(fmt, out, depth.saturating_sub(1));
+        }
+        return;
+    }
+    // (attribution mode: a container without anything renderable gets no gaps at all)
+    let hollow = fmt.no_gap_in_empty && !has_renderable(nodes);
     let mut i = 0;
     // an element whose optional end tag was omitted swallows what follows it,
     // so no gap may be written right after it
@@ -286,11 +314,19 @@ fn ser_children(
                 is_block_node(&nodes[i - 1])
             };
             if prev_block && is_block_node(n) {
-                emit_gap(fmt, out, depth);
+                if hollow {
+                    let mut scratch = String::new();
+                    emit_gap(fmt, &mut scratch, depth);
+                } else {
+                    emit_gap(fmt, out, depth);
+                }
             }
         }
         // span wrapping of an inline run
-        if fmt.span_wrap && !in_pre && !is_block_node(n) && (fmt.span_edges || !matches!(n, Node::Space)) {
+        // (a run of nothing but white space is not wrapped: between the tags of a list
+        // or table it is not inline content at all)
+        let ws_only = matches!(n, Node::Raw(t) if t.trim().is_empty());
+        if fmt.span_wrap && !in_pre && !ws_only && !is_block_node(n) && (fmt.span_edges || !matches!(n, Node::Space)) {
             if fmt.chance(1, 12) {
                 // extend over following inline, non-edge-space nodes
                 let mut j = i + 1;
@@ -316,7 +352,12 @@ fn ser_children(
         i += 1;
     }
     if gaps_ok && all_block && !prev_open {
-        emit_gap(fmt, out, depth.saturating_sub(1));
+        if hollow {
+            let mut scratch = String::new();
+            emit_gap(fmt, &mut scratch, depth.saturating_sub(1));
+        } else {
+            emit_gap(fmt, out, depth.saturating_sub(1));
+        }
     }
 }
 
